@@ -77,7 +77,12 @@ func RunHarness(p *Program, h *Harness, cfg runCfg) (res *Result) {
 	}
 	if h.Item.Options["unroll"] != "" {
 		x.unroll = true
-		res.Bounded = true
+		// "exact": every loop has a concrete trip count for the inputs of this lemma (otherwise the
+		// revisit cap aborts the run as undecided), so this is not a bounded stand-in
+		res.Bounded = h.Item.Options["unroll"] != "exact"
+	}
+	if f := h.Item.Options["recfuel"]; f != "" {
+		fmt.Sscanf(f, "%d", &x.maxFuel)
 	}
 	st := NewState()
 	args := make([]*Term, len(h.Fn.Params))
